@@ -730,3 +730,96 @@ func c08LenForm(c *Ctx, r *Report) {
 		c.checkLenForm(r, "C08.R1.len-form", t)
 	}
 }
+
+// genericPrefix: typeToInt / classToInt read the number behind TYPE / CLASS; they are called for any token that is
+// not a mnemonic (the bitmap parsers call them without looking at the token first), so they test the prefix
+// themselves: the number is parsed only on the edge where the first octets compared equal to the prefix.
+func genericPrefix(c *Ctx, r *Report, rule string) {
+	r.rule(rule, 2, "typeToInt / classToInt parse the number only after comparing the token's prefix with TYPE / CLASS")
+	for _, spec := range []struct{ fn, prefix string }{{"typeToInt", "TYPE"}, {"classToInt", "CLASS"}} {
+		fn := c.ssaFunc(spec.fn)
+		if fn == nil {
+			r.cerr(rule, spec.fn, "function not found")
+			continue
+		}
+		r.fn(spec.fn)
+		okAll := true
+		n := 0
+		for _, ci := range callsIn(fn, "strconv.ParseUint", "strconv.ParseInt", "strconv.Atoi") {
+			n++
+			guarded := false
+			for _, f := range factsAt(fn, ci.(ssa.Instruction).Block()) {
+				call, ok := f.Atom.(*ssa.Call)
+				if !ok || !f.Holds {
+					continue
+				}
+				cn := calleeNameSSA(&call.Call)
+				if cn != "strings.EqualFold" && cn != "strings.HasPrefix" {
+					continue
+				}
+				for _, a := range call.Call.Args {
+					if k, ok := a.(*ssa.Const); ok && k.Value != nil && k.Value.Kind() == constant.String && strings.EqualFold(constant.StringVal(k.Value), spec.prefix) {
+						guarded = true
+					}
+				}
+			}
+			if !guarded {
+				okAll = false
+			}
+		}
+		if n == 0 {
+			r.undecided(rule, spec.fn, c.pos(fn.Pos()), "no number parse found")
+			continue
+		}
+		r.check(okAll, rule, spec.fn, c.pos(fn.Pos()), "prefix compared", "%s parses the digits behind the first %d octets without comparing those octets with %q: every token whose tail is a number is taken for the generic form (`NSEC bar XXXX12 A` reads as PTR A, `host7` in a CSYNC bitmap as MB), so a typo in a bitmap silently becomes another type", spec.fn, len(spec.prefix), spec.prefix)
+	}
+}
+
+// c18KeyIdentity: SIG.Verify succeeds only with the key the signature names: algorithm and key tag of the SIG equal
+// those of the KEY on every path to a success return (RRSIG.Verify makes the same two checks: C10.R1.verify-guards).
+func c18KeyIdentity(c *Ctx, r *Report, rule string) {
+	r.rule(rule, 2, "every success return of SIG.Verify is preceded by rr.KeyTag == k.KeyTag() and rr.Algorithm == k.Algorithm")
+	fn := c.ssaFunc("SIG.Verify")
+	if fn == nil {
+		r.cerr(rule, "SIG.Verify", "function not found")
+		return
+	}
+	r.fn("SIG.Verify")
+	rr, k := fn.Params[0], paramOf(fn, "k")
+	guards := []Guard{
+		{Name: "rr.KeyTag == k.KeyTag()", Op: "eq", A: func(v ssa.Value) bool {
+			return fieldPathOf(isValue(rr), "KeyTag")(v) || fieldPathOf(isValue(rr), "RRSIG.KeyTag")(v)
+		}, B: func(v ssa.Value) bool {
+			call, ok := v.(*ssa.Call)
+			if !ok || !strings.HasSuffix(calleeNameSSA(&call.Call), "KeyTag") || len(call.Call.Args) == 0 {
+				return false
+			}
+			a := call.Call.Args[0]
+			if fa, isFA := a.(*ssa.FieldAddr); isFA {
+				a = fa.X
+			}
+			return a == k
+		}, Holds: true},
+		{Name: "rr.Algorithm == k.Algorithm", Op: "eq", A: func(v ssa.Value) bool {
+			return fieldPathOf(isValue(rr), "Algorithm")(v) || fieldPathOf(isValue(rr), "RRSIG.Algorithm")(v)
+		}, B: func(v ssa.Value) bool {
+			return fieldPathOf(isValue(k), "Algorithm")(v) || fieldPathOf(isValue(k), "DNSKEY.Algorithm")(v)
+		}, Holds: true},
+	}
+	for _, g := range guards {
+		var bad []string
+		for _, rp := range returnPoints(fn, 0) {
+			if kk, ok := rp.Results[0].(*ssa.Const); !ok || kk.Value != nil {
+				// a verdict returned by a verifier call (rsa.VerifyPKCS1v15) is a possible success as well
+				if _, isCall := rp.Results[0].(*ssa.Call); !isCall {
+					continue
+				}
+			}
+			if miss := guardsMissing(fn, rp.Block, []Guard{g}); len(miss) > 0 {
+				bad = append(bad, c.pos(rp.Pos))
+			}
+		}
+		sort.Strings(bad)
+		r.check(len(bad) == 0, rule, "SIG.Verify:"+g.Name, c.pos(fn.Pos()), "on every success path", "success at %s is reachable without the test %s: a message signed with one algorithm verifies against a KEY record that names another (same key material, different algorithm and key tag), i.e. against a key the signature does not name", strings.Join(uniqStrings(bad), ", "), g.Name)
+	}
+}
